@@ -42,7 +42,7 @@ def run(ctx):
         cases.append(c)
     cases.append({"kind": "kx", "da": "1", "db": hex(N - 2)[2:], "ra": "2", "rb": "3", "ida": {"kind": "default"}, "idb": {"kind": "default"}, "klen": 16})
     rows = tlc_table(ctx, cases, "kx")
-    bad = [dict(cases[5], bad="offcurve"), dict(cases[5], bad="infinity")]
+    bad = [dict(cases[5], bad="offcurve"), dict(cases[5], bad="infinity"), dict(cases[5], bad="xplusp"), dict(cases[5], bad="yminusp")]
     casef = os.path.join(ctx.work, "kx.ndjson")
     obsf = os.path.join(ctx.work, "kx.obs.ndjson")
     write_ndjson(casef, [{"case": x["case"]} for x in rows] + [{"case": c} for c in bad])
@@ -58,7 +58,7 @@ def run(ctx):
         elif c.get("bad"):
             for side in ("a", "b"):
                 if not g[side]["err"]:
-                    probs.append("party %s derived a key from a peer ephemeral value that is %s" % (side.upper(), "not on the curve" if c["bad"] == "offcurve" else "the point at infinity"))
+                    probs.append("party %s derived a key from a peer ephemeral value that is %s" % (side.upper(), {"offcurve": "not on the curve", "infinity": "the point at infinity", "xplusp": "a pair outside [0, p) (x + p, y)", "yminusp": "a pair outside [0, p) (x, y - p)"}[c["bad"]]))
         else:
             e = exp[json.dumps(c, sort_keys=True)]
             if not e["same"]:
